@@ -159,6 +159,40 @@ pub fn run(tier: Tier) -> i32 {
             rep.failures.push((sig, d, Some(c)));
         }
     }
+    // ---- a zero is a zero: NegativeInteger(0) (which a value source other than serde_json may hand out)
+    // must be treated like Integer(0) - same outcome, and for NonZero targets the same domain error
+    for &ti in &scalars {
+        let e = &reg.entries[ti];
+        if !matches!(e.ty, Ty::Int(_) | Ty::F32 | Ty::F64) {
+            continue;
+        }
+        let neg = Case { ty: ti, payload: PV::Neg(0), script: Script::all_continue(), aux: 0, faults: 0 };
+        rep.stats.evaluations += 1;
+        rep.stats.nontrivial(&(ti, "neg-zero"));
+        rep.stats.class("NegativeInteger(0)");
+        if let Verdict::Violation(sig, d) = test(&reg, &neg, None) {
+            rep.fail(&sig, d, case_json(&reg, &neg));
+        }
+        if let Ty::Int(it) = &e.ty {
+            if it.signed && it.nonzero {
+                let msg_of = |pv: PV| -> Option<String> {
+                    let o = (e.rec)(&pv, Src::Ov, &Script::all_continue());
+                    o.trace.iter().find_map(|ev| match ev {
+                        dv_core::trace::Event::Report { kind: dv_core::trace::RKind::Unexpected { msg }, .. } => Some(msg.clone()),
+                        _ => None,
+                    })
+                };
+                let (a, b) = (msg_of(PV::Int(0)), msg_of(PV::Neg(0)));
+                if a != b {
+                    rep.fail(
+                        &format!("C05|zero-described-differently-by-kind|{}", e.name),
+                        json!({"what": format!("zero into {}: as Integer(0) the domain error reads {a:?}, as NegativeInteger(0) it reads {b:?}", e.name)}),
+                        case_json(&reg, &neg),
+                    );
+                }
+            }
+        }
+    }
     let exhaustive_n = rep.stats.evaluations;
     rep.extra.insert("exhaustive_evaluations".into(), json!(exhaustive_n));
     // ---- random part ----
